@@ -33,6 +33,7 @@ package checker
 //@   ensures forall i :: 0 <= i && i < len(c.path) ==> c.path[i] == old(c.path[i])
 //@   ensures !(typeName in c.visited)
 //@   ensures forall k string :: k != typeName ==> ((k in c.visited) == old(k in c.visited))
+//@   ensures len(c.visited) == old(len(c.visited)) - (old(typeName in c.visited) ? 1 : 0)
 //@   ensures c.path.arr == old(c.path.arr)
 //@   no_panic
 
